@@ -629,7 +629,11 @@ def build_cfg(fn_node, repo=None):
     return Builder(fn_node, _hier_cache[key]).build()
 
 
+BUILT = {}
+
+
 def cfg_of(fi, repo=None):
     if fi._cfg is None:
         fi._cfg = build_cfg(fi.node, repo or fi.module.repo)
+        BUILT[fi.qualname] = (len(fi._cfg.nodes), sum(len(v) for v in fi._cfg.succ.values()))
     return fi._cfg
